@@ -32,9 +32,10 @@ func compile(enc string) *pure.Kernel {
 		return nil
 	}
 	if len(kernels) > 64 {
+		// drop the oldest half would need bookkeeping; a full reset is fine, but keep the type tables (small),
+		// because a caller may still hold a kernel of an evicted schema
 		kernels = map[string]*pure.Kernel{}
 		kernelErr = map[string]bool{}
-		consOfType = map[string]map[string][]string{}
 	}
 	text, ok := renderSchema(enc)
 	if !ok {
@@ -128,7 +129,7 @@ func rewrite(enc string, k *pure.Kernel, root string, data []byte, zeroMask bool
 }
 
 func rewriteInChild(enc, root, hexdata string) string {
-	ctx, cancel := context.WithTimeout(context.Background(), 20*time.Second)
+	ctx, cancel := context.WithTimeout(context.Background(), 6*time.Second)
 	defer cancel()
 	cmd := exec.CommandContext(ctx, os.Args[0], "-rewrite", enc, root, hexdata)
 	out, err := cmd.Output()
@@ -140,7 +141,7 @@ func rewriteInChild(enc, root, hexdata string) string {
 
 // child mode: `hlint -rewrite <schema> <root> <hex>` prints the re-encoding under an address-space limit
 func childMain(args []string) {
-	_ = syscall.Setrlimit(syscall.RLIMIT_AS, &syscall.Rlimit{Cur: 3 << 30, Max: 3 << 30})
+	_ = syscall.Setrlimit(syscall.RLIMIT_AS, &syscall.Rlimit{Cur: 1 << 30, Max: 1 << 30})
 	realOut := os.Stdout
 	if devnull, err := os.OpenFile(os.DevNull, os.O_WRONLY, 0); err == nil {
 		os.Stdout = devnull
